@@ -15,6 +15,19 @@ E1_TECH = ('bounded symbolic execution of the real yatiml/PyYAML code with '
            'bounds), counterexamples replayed on the unstubbed public API')
 
 CHECKS = {
+    'C02': dict(
+        text='Differential bounded model checking: the real load pipeline '
+             'against a naive reference interpreter of the documented rules '
+             '(vlib/ref.py) on the symbolic single-mutation document space of '
+             '17 auto-recognised class models (incl. declarative seasoning, '
+             'dashed keys, defaults, _yatiml_extra, enums, string-likes, an '
+             'abstract hierarchy): rejects iff the reference rejects, '
+             'otherwise structurally equal values.',
+        design='4/C02',
+        note='Trusted base: the reference interpreter vlib/ref.py (about 250 '
+             'lines, written from the documentation), PyYAML\'s '
+             'SafeConstructor for plain data and scalar parsing, CPython, '
+             'CrossHair, z3; stubs and bounds as listed in the evidence.'),
     'C13': dict(
         text='Oracle-free pairs on the real pipeline: valid and singly '
              'mutated documents of 16 class models are loaded twice, the '
